@@ -20,21 +20,10 @@ func init() {
 func ruleC08Mix(c *Ctx) {
 	c.Doc("c08.mix-fresh", "the function registered as the `mix` top-level function (resolved from the RegisterTopLevelFunction call in init) and everything it calls write only into storage they allocate themselves: no append/element store/map update may target the source document (ownership analysis), so flattening is the concatenation of the inner arrays and leaves the source intact")
 	var mix *ssa.Function
-	for _, f := range c.P.pkgFuncs(modPath) {
-		allInstrs(f, func(_ *ssa.BasicBlock, in ssa.Instruction) {
-			call, ok := in.(*ssa.Call)
-			if !ok || call.Common().StaticCallee() == nil || len(call.Common().Args) != 2 {
-				return
-			}
-			if s, isC := constString(call.Common().Args[0]); isC && s == "mix" {
-				switch v := call.Common().Args[1].(type) {
-				case *ssa.Function:
-					mix = v
-				case *ssa.MakeClosure:
-					mix = v.Fn.(*ssa.Function)
-				}
-			}
-		})
+	// the registration call with a constant name, or a loop over a table literal of {name, function} records (refactoring
+	// round 11: the two RegisterTopLevelFunction calls of init became such a loop)
+	if r, ok := c.topLevelRegistrations()["mix"]; ok {
+		mix = r.fn
 	}
 	if mix == nil {
 		c.Unknown("c08.mix-fresh", "mix", "-", "anchor lost: no registration of a top-level function named mix")
